@@ -130,6 +130,7 @@ pub fn check_case(tape: &[u16], rc: &mut RCase) -> Result<(), Failure> {
     let mut feat = Feat::core();
     feat.withdrawals = true;
     feat.donation = true;
+    feat.witnesses = true;
     feat.max_txs = 3;
     let mut case = Gen::new(&mut t, feat).generate();
     // one program in twelve spells two parameters of a transaction alike but for the case: the IR knows one
